@@ -344,6 +344,14 @@ def build_step(ck, v6, preset, xb, op, src, obs=None):
             rej = VEnum(info, bv(info.index("CloseGroupRejection"), 8), {info.index("CloseGroupRejection"): ()})
             st1, _ = run_async(eng, ck.fn_in("DhtCoreEngine", "evict_node"), [re_, eng.alloc(st, xid), rej], st)
             ok = z3.BoolVal(True)
+        elif op == "evict_sec":
+            # the security eviction entry point, for an ARBITRARY close-group failure reason
+            finfo = eng.enum_info("CloseGroupFailure")
+            fr = src.bv("failure_reason", 8)
+            hyps.append(z3.ULT(fr, bv(len(finfo.variants), 8)))
+            why = VEnum(finfo, fr, {i: () for i in range(len(finfo.variants))})
+            st1, _ = run_async(eng, ck.fn_in("DhtCoreEngine", "evict_node_for_security"), [re_, eng.alloc(st, xid), why], st)
+            ok = z3.BoolVal(True)
         else:
             st1, _ = run_async(eng, ck.fn_in("DhtCoreEngine", "handle_node_failure"), [re_, xid], st)
             ok = z3.BoolVal(True)
@@ -399,9 +407,9 @@ def build_step(ck, v6, preset, xb, op, src, obs=None):
 
 
 def step_cases(tier):
-    cs = [(True, "default", 3, "add"), (False, "default", 3, "add"), (True, "default", 3, "evict"), (False, "default", 3, "failure")]
+    cs = [(True, "default", 3, "add"), (False, "default", 3, "add"), (True, "default", 3, "evict"), (False, "default", 3, "failure"), (True, "default", 3, "evict_sec")]
     if tier != "quick":
-        cs += [(True, "default", 3, "failure"), (False, "default", 3, "evict"), (False, "permissive", 3, "add"), (True, "testnet", 7, "add")]
+        cs += [(True, "default", 3, "failure"), (False, "default", 3, "evict"), (False, "permissive", 3, "add"), (True, "testnet", 7, "add"), (False, "default", 3, "evict_sec")]
     return cs
 
 
